@@ -1,7 +1,7 @@
 ---- MODULE PickFirstMC ----
 (* bounded-history wrapper of PickFirst for exhaustive checking and behaviour generation *)
 EXTENDS PickFirst
-CONSTANTS MaxEvents, Lists, HealthVals
+CONSTANTS MaxEvents, Lists, HealthVals, BalVals
 VARIABLE nev
 \* constant definitions for the cfg files (sequences cannot be written in a cfg)
 Fam3 == <<4, 6, 4>>
@@ -14,14 +14,15 @@ ListsC == << <<>>, <<1, 4, 2, 3>>, <<3, 3, 1>>, <<2, 4>> >>
 vars == <<b, nev>>
 Init == PInit /\ nev = 0
 Tick == nev < MaxEvents /\ nev' = nev + 1
-UpdateT(i, h) == Tick /\ Update(Lists[i], h)
+UpdateT(i, h, v) == Tick /\ Update(Lists[i], h, v)
 ResolverErrorT == Tick /\ ResolverError
 ExitIdleT == Tick /\ b.state = "IDLE" /\ ExitIdle
 TimerT == Tick /\ Timer
+StaleTimerT == Tick /\ StaleTimer
 ScStateT(sc, n) == Tick /\ sc \in 1..Len(b.addr) /\ sc \notin b.shut /\ ScState(sc, n)
 HealthT(sc, n) == Tick /\ Health(sc, n)
-Next == \/ \E i \in 1..Len(Lists) : \E h \in HealthVals : UpdateT(i, h)
-        \/ ResolverErrorT \/ ExitIdleT \/ TimerT
+Next == \/ \E i \in 1..Len(Lists) : \E h \in HealthVals : \E v \in BalVals : UpdateT(i, h, v)
+        \/ ResolverErrorT \/ ExitIdleT \/ TimerT \/ StaleTimerT
         \/ \E sc \in 1..MaxSc : \E n \in ScStates : ScStateT(sc, n) \/ HealthT(sc, n)
 \* the reference pre-processing satisfies the declarative statement on all lists of <= 4 addresses
 ASSUME \A m \in 0..4 : \A L \in [1..m -> Addrs] : PreprocessOK(L, Process(L))
